@@ -149,6 +149,11 @@ ProcessMonVer(sw, hw, exts) ==
     MonVerFold(exts, 1, [sw |-> Replace(Replace(sw, "ROM CORE", "ROM"), "EXT CORE", "Flash"),
                          hw |-> hw, fw |-> "N/A", rom |-> "N/A", gnss |-> ""])
 
+\* the same for a value given in TENTHS of a high-precision unit (M, last digit not 5): the pair recombines to the nearest unit and
+\* the high-precision part stays within -100..100 (the library rounds the residual, so +-100 can occur at a carry)
+RoundTenths(M) == IF M >= 0 THEN (M + 5) \div 10 ELSE -((5 - M) \div 10)
+SpHpTenths(M, sp, hp) == 100 * sp + hp = RoundTenths(M) /\ hp >= -100 /\ hp <= 100 /\ (M >= 0 => sp >= 0 /\ hp >= 0) /\ (M <= 0 => sp <= 0 /\ hp <= 0)
+
 \* grouped attribute names: base + _ii (+ _jj)
 Idx2(i) == IF i < 10 THEN "_0" \o ToString(i) ELSE "_" \o ToString(i)
 =============================================================================
